@@ -53,3 +53,35 @@ fn c09_sqlite_rollback_keeps_messages() {
 fn c09_memory_rollback_keeps_messages() {
     scenario(MdkMemoryStorage::default());
 }
+
+fn retake<S: MdkStorageProvider>(s: S) {
+    let g1 = GroupId::from_slice(&[1, 1, 1]);
+    s.save_group(group(&g1, 1)).unwrap();
+    s.create_group_snapshot(&g1, "s1").unwrap();
+    // state changes, then the snapshot is taken again under the same name: it must replace the first one
+    let mut g = group(&g1, 1);
+    g.name = "renamed".into();
+    g.epoch = 2;
+    s.save_group(g).unwrap();
+    s.create_group_snapshot(&g1, "s1").expect("re-taking a snapshot under an existing name must replace it");
+    let mut g = group(&g1, 1);
+    g.name = "third".into();
+    g.epoch = 3;
+    s.save_group(g).unwrap();
+    s.rollback_group_to_snapshot(&g1, "s1").unwrap();
+    let back = s.find_group_by_mls_group_id(&g1).unwrap().unwrap();
+    assert_eq!((back.name.as_str(), back.epoch), ("renamed", 2), "rollback did not restore the state of the second snapshot");
+}
+
+/// C09: re-taking a snapshot under an existing name replaces it (SQLite)
+#[test]
+fn c09_sqlite_retake_snapshot_replaces() {
+    let dir = tempfile::tempdir().unwrap();
+    retake(MdkSqliteStorage::new_unencrypted(dir.path().join("c.db")).unwrap());
+}
+
+/// control: memory backend
+#[test]
+fn c09_memory_retake_snapshot_replaces() {
+    retake(MdkMemoryStorage::default());
+}
